@@ -1,4 +1,8 @@
 """Shared plumbing of the checks: Lean build / audit / driver, evidence, verdicts, findings."""
+import sys as _sys
+if hasattr(_sys, "set_int_max_str_digits"):
+    _sys.set_int_max_str_digits(0)      # the exact drivers print rationals with thousands of digits
+
 import hashlib
 import json
 import os
